@@ -382,54 +382,54 @@ theorem substUniteComm_false : ¬ SubstUniteComm := fun h => by
 /-! ## Non-vacuity: every hypothesis set is met by a non-trivial input -/
 
 /-- `dict[str, Literal[(1,)]]` and `dict[str, Literal[(True,)]]`: different terms, `==`, same hash -/
-def exA : Ty := .generic C.dict [.typed C.str, .known (.tuple [.int 1])]
-def exB : Ty := .generic C.dict [.typed C.str, .known (.tuple [.bool true])]
-example : exA.hasUnion = false := by decide
-example : exA.hasUnhashable = false := by decide
-example : exB.hasUnhashable = false := by decide
-example : Ty.beq exA exB = true := by
-  simp [exA, exB, Ty.beq, Ty.beqList, Obj.same, Obj.tag, Obj.pyEq, Obj.pyEqList]
-example : Ty.hashEq exA exB = true :=
-  eq_hash_partial exA exB (by decide) (by decide) (by decide)
-    (by simp [exA, exB, Ty.beq, Ty.beqList, Obj.same, Obj.tag, Obj.pyEq, Obj.pyEqList])
+def c14exA : Ty := .generic C.dict [.typed C.str, .known (.tuple [.int 1])]
+def c14exB : Ty := .generic C.dict [.typed C.str, .known (.tuple [.bool true])]
+example : c14exA.hasUnion = false := by decide
+example : c14exA.hasUnhashable = false := by decide
+example : c14exB.hasUnhashable = false := by decide
+example : Ty.beq c14exA c14exB = true := by
+  simp [c14exA, c14exB, Ty.beq, Ty.beqList, Obj.same, Obj.tag, Obj.pyEq, Obj.pyEqList]
+example : Ty.hashEq c14exA c14exB = true :=
+  eq_hash_partial c14exA c14exB (by decide) (by decide) (by decide)
+    (by simp [c14exA, c14exB, Ty.beq, Ty.beqList, Obj.same, Obj.tag, Obj.pyEq, Obj.pyEqList])
 
 /-- `int | str`, `Annotated[str | bytes, m]`, `float`, `list[int | str] | None` -/
-def exU : Ty := .union [.typed C.int, .typed C.str]
-def exAnn : Ty := .annotated (.union [.typed C.str, .typed C.bytes])
-def exF : Ty := .typed C.float
-def exG : Ty := .union [.generic C.list [exU], .known .none]
-example : ∀ v ∈ [exU, exAnn, exF, exG], v.flat = true := by decide
-example : (unite [exU, exAnn, exF, exG]).flat = true := unite_flat _ (by decide)
-example : exU.flat = true ∧ exAnn.flat = true ∧ exF.flat = true := by decide
-example : (unite [exU, exAnn, exF, exG]).flatD = true := unite_flatD _ (by decide)
-example : unite [unite [exU, exAnn], exF] = unite [exU, unite [exAnn, exF]] :=
+def c14exU : Ty := .union [.typed C.int, .typed C.str]
+def c14exAnn : Ty := .annotated (.union [.typed C.str, .typed C.bytes])
+def c14exF : Ty := .typed C.float
+def c14exG : Ty := .union [.generic C.list [c14exU], .known .none]
+example : ∀ v ∈ [c14exU, c14exAnn, c14exF, c14exG], v.flat = true := by decide
+example : (unite [c14exU, c14exAnn, c14exF, c14exG]).flat = true := unite_flat _ (by decide)
+example : c14exU.flat = true ∧ c14exAnn.flat = true ∧ c14exF.flat = true := by decide
+example : (unite [c14exU, c14exAnn, c14exF, c14exG]).flatD = true := unite_flatD _ (by decide)
+example : unite [unite [c14exU, c14exAnn], c14exF] = unite [c14exU, unite [c14exAnn, c14exF]] :=
   unite_assoc_partial _ _ _ (by decide) (by decide) (by decide)
 
-example : exF.isU = false := by decide
-example : isAnnUnion exU = false ∧ isAnnUnion exG = false := by decide
-example : nonNormalUnion exU = false := by
-  simp [exU, nonNormalUnion, hasDupMembers, hasDupMembers.dupIn, Ty.memBy, Ty.beq, C.int, C.str]
-example : unite [exU] = exU :=
+example : c14exF.isU = false := by decide
+example : isAnnUnion c14exU = false ∧ isAnnUnion c14exG = false := by decide
+example : nonNormalUnion c14exU = false := by
+  simp [c14exU, nonNormalUnion, hasDupMembers, hasDupMembers.dupIn, Ty.memBy, Ty.beq, C.int, C.str]
+example : unite [c14exU] = c14exU :=
   unite_single_partial _ (by decide)
-    (by simp [exU, nonNormalUnion, hasDupMembers, hasDupMembers.dupIn, Ty.memBy, Ty.beq, C.int, C.str])
+    (by simp [c14exU, nonNormalUnion, hasDupMembers, hasDupMembers.dupIn, Ty.memBy, Ty.beq, C.int, C.str])
 
 /-- idempotence: `int | str` and a hashable non-union -/
-example : isAnnUnion exU = false ∧ exU.hasUnhashable = false := by decide
-example : unite [exU, exU] = exU :=
+example : isAnnUnion c14exU = false ∧ c14exU.hasUnhashable = false := by decide
+example : unite [c14exU, c14exU] = c14exU :=
   unite_idem_partial _ (by decide)
-    (by simp [exU, nonNormalUnion, hasDupMembers, hasDupMembers.dupIn, Ty.memBy, Ty.beq, C.int, C.str])
+    (by simp [c14exU, nonNormalUnion, hasDupMembers, hasDupMembers.dupIn, Ty.memBy, Ty.beq, C.int, C.str])
     (by decide)
-example : isAnnUnion exA = false ∧ nonNormalUnion exA = false ∧ exA.hasUnhashable = false := by decide
+example : isAnnUnion c14exA = false ∧ nonNormalUnion c14exA = false ∧ c14exA.hasUnhashable = false := by decide
 
 /-- commutativity: nested unions and an annotated union are fine -/
-example : ∀ v ∈ [exG, exAnn, exA], v.hasUnhashable = false := by decide
-example : Ty.beq (unite [exG, exAnn, exA]) (unite [exA, exG, exAnn]) = true :=
-  unite_perm_partial _ _ (List.perm_append_comm (l₁ := [exG, exAnn]) (l₂ := [exA])) (by decide)
+example : ∀ v ∈ [c14exG, c14exAnn, c14exA], v.hasUnhashable = false := by decide
+example : Ty.beq (unite [c14exG, c14exAnn, c14exA]) (unite [c14exA, c14exG, c14exAnn]) = true :=
+  unite_perm_partial _ _ (List.perm_append_comm (l₁ := [c14exG, c14exAnn]) (l₂ := [c14exA])) (by decide)
 
 /-- transitivity: `int | Literal[(1,)]`, `Literal[(True,)] | int`, `int | Literal[(1,)]` -/
 example : (Ty.union [.typed C.int, .known (.tuple [.int 1])]).tidyU = true ∧
     (Ty.union [.known (.tuple [.bool true]), .typed C.int]).tidyU = true := by decide
-example : exA.hasUnion = false := by decide
+example : c14exA.hasUnion = false := by decide
 example : Ty.beq (.union [.typed C.int, .known (.tuple [.int 1])])
     (.union [.typed C.int, .known (.tuple [.bool true])]) = true :=
   beq_trans_tidyU_partial _ (.union [.known (.tuple [.bool true]), .typed C.int]) _
@@ -440,45 +440,45 @@ example : Ty.beq (.union [.typed C.int, .known (.tuple [.int 1])])
           Obj.same, Obj.tag, Obj.pyEq, Obj.pyEqList, C.int])
 
 /-- tidy members: `int | str`, `int`, `Literal[1]`, `Annotated[str | bytes, m]` -/
-example : ∀ v ∈ [exU, .typed C.int, .known (.int 1), exAnn], ∀ x ∈ flatten1 v, x.tidy = true := by
+example : ∀ v ∈ [c14exU, .typed C.int, .known (.int 1), c14exAnn], ∀ x ∈ flatten1 v, x.tidy = true := by
   decide
-example : nonNormalUnion (unite [exU, .typed C.int, .known (.int 1), exAnn]) = false :=
+example : nonNormalUnion (unite [c14exU, .typed C.int, .known (.int 1), c14exAnn]) = false :=
   unite_merges_partial _ (by decide)
 
 /-- `dict[str, list[int | str]]`: closed and deeply flat -/
-def exC : Ty := .generic C.dict [.typed C.str, .generic C.list [exU]]
-example : exC.tvars = [] := by decide
-example : exC.flatD = true := by decide
-example : subst [(0, exF)] exC = exC := subst_id_closed _ _ (by decide) (by decide)
+def c14exC : Ty := .generic C.dict [.typed C.str, .generic C.list [c14exU]]
+example : c14exC.tvars = [] := by decide
+example : c14exC.flatD = true := by decide
+example : subst [(0, c14exF)] c14exC = c14exC := subst_id_closed _ _ (by decide) (by decide)
 
 /-- `T0 | dict[T1, T0]` with `T0 := int`, `T1 := list[str]` -/
-def exM : TvMap := [(0, .typed C.int), (1, .generic C.list [.typed C.str])]
-def exT : Ty := .union [.tvar 0, .generic C.dict [.tvar 1, .tvar 0]]
-theorem exT_mapped : ∀ i ∈ exT.tvars, ∃ u, exM.get i = some u ∧ u.tvars = [] := by
+def c14exM : TvMap := [(0, .typed C.int), (1, .generic C.list [.typed C.str])]
+def c14exT : Ty := .union [.tvar 0, .generic C.dict [.tvar 1, .tvar 0]]
+theorem exT_mapped : ∀ i ∈ c14exT.tvars, ∃ u, c14exM.get i = some u ∧ u.tvars = [] := by
   intro i hi
-  simp only [exT, Ty.tvars, Ty.tvarsL, List.append_nil, List.cons_append, List.nil_append,
+  simp only [c14exT, Ty.tvars, Ty.tvarsL, List.append_nil, List.cons_append, List.nil_append,
     List.mem_cons, List.not_mem_nil, or_false] at hi
   rcases hi with rfl | rfl | rfl
   · exact ⟨.typed C.int, rfl, rfl⟩
   · exact ⟨.generic C.list [.typed C.str], rfl, rfl⟩
   · exact ⟨.typed C.int, rfl, rfl⟩
-example : (subst exM exT).tvars = [] := subst_replaces_all exM exT exT_mapped
+example : (subst c14exM c14exT).tvars = [] := subst_replaces_all c14exM c14exT exT_mapped
 
 /-- `T0 | None` united with `str`, `T0 := int | bytes`: the substituted union is re-flattened -/
-def exM2 : TvMap := [(0, .union [.typed C.int, .typed C.bytes])]
-def exSa : Ty := .union [.tvar 0, .known .none]
-def exSb : Ty := .typed C.str
-theorem exS_left : subst exM2 (unite [exSa, exSb]) =
+def c14exM2 : TvMap := [(0, .union [.typed C.int, .typed C.bytes])]
+def c14exSa : Ty := .union [.tvar 0, .known .none]
+def c14exSb : Ty := .typed C.str
+theorem exS_left : subst c14exM2 (unite [c14exSa, c14exSb]) =
     .union [.typed C.int, .typed C.bytes, .known .none, .typed C.str] := by
-  simp [exM2, exSa, exSb, unite, flatten1, dedup, dictMem, Ty.hashEq, subst, substL, mkUnion,
+  simp [c14exM2, c14exSa, c14exSb, unite, flatten1, dedup, dictMem, Ty.hashEq, subst, substL, mkUnion,
     TvMap.get, C.str]
-example : Ty.beq (subst exM2 (unite [exSa, exSb])) (unite [subst exM2 exSa, subst exM2 exSb]) = true :=
-  subst_unite_comm_partial exM2 exSa exSb (by decide) (by decide) (by decide) (by decide)
+example : Ty.beq (subst c14exM2 (unite [c14exSa, c14exSb])) (unite [subst c14exM2 c14exSa, subst c14exM2 c14exSb]) = true :=
+  subst_unite_comm_partial c14exM2 c14exSa c14exSb (by decide) (by decide) (by decide) (by decide)
     (by rw [exS_left]; decide)
     (by rw [exS_left]
         simp [nonNormalUnion, hasDupMembers, hasDupMembers.dupIn, Ty.memBy, Ty.beq, C.int, C.bytes, C.str])
-    (by simp [exM2, exSa, subst, substL, mkUnion, TvMap.get, flatten1, Ty.hasUnhashable,
+    (by simp [c14exM2, c14exSa, subst, substL, mkUnion, TvMap.get, flatten1, Ty.hasUnhashable,
           Ty.hasUnhashableL, Obj.hashable])
-    (by simp [exM2, exSb, subst, Ty.hasUnhashable])
+    (by simp [c14exM2, c14exSb, subst, Ty.hasUnhashable])
 
 end Pya
